@@ -201,6 +201,8 @@ def classify(e, scope, depth=0, seen=None):
                     return Cls("safe", "name of a generated identifier")
             if sir.expr_str(b) == "self" and scope.fn.get("_impl") == "JsIdent":
                 return Cls("safe", "name of a generated identifier")
+        if e.get("name") in ("top_declares", "sub_strs") and sir.expr_str(e["base"]) == "self" and (scope.fn.get("_impl") or "").startswith("JsTopScopeWriter"):
+            return Cls("code", "statement buffers of the top scope writer")
         return Cls("unsafe", "field `%s` of the template AST / group state reaches generated code unescaped" % sir.expr_str(e))
     if k == "index":
         return classify(e["base"], scope, depth + 1, seen)
@@ -805,9 +807,13 @@ def sep_rule(ctx):
             if ev[0] == "write" and ev[1] == ";":
                 n_ += 1
         return n_
-    st = [f for f in tc.fns if f.name == "stat" and f.base == "JsFunctionScopeWriter" and f.body]
+    # the separator automaton is whichever method of the function-scope writer tests the flag and then runs its closure
+    # parameter (`stat`, or `expr_stmt` itself when the helper has been inlined)
+    st = [f for f in tc.fns if f.base == "JsFunctionScopeWriter" and f.body and f.name != "custom_stmt_str"
+          and any(x.get("k") == "field" and x["name"] == "need_stat_sep" for x in sir.walk(f.body))
+          and any(x.get("k") == "call" and x["f"].get("k") == "path" and len(x["f"]["segs"]) == 1 and x["f"]["segs"][0] in f.param_names() for x in sir.walk(f.body))]
     if len(st) != 1:
-        obs.append(ob("C02.sep/stat", False, "proc_gen/mod.rs", "stat() not found"))
+        obs.append(ob("C02.sep/stat", False, "proc_gen/mod.rs", "the statement-separator method of JsFunctionScopeWriter was not found (%d candidates)" % len(st)))
     else:
         f = st[0]
         verdict, d = True, []
@@ -829,7 +835,7 @@ def sep_rule(ctx):
                       witness=None if verdict is not False else "two statements in one block are emitted without / with a doubled `;`"))
     # every statement-writing entry point passes stat(): expr_stmt calls self.stat; custom_stmt_str handles the flag itself
     es = [f for f in tc.fns if f.name == "expr_stmt" and f.base == "JsFunctionScopeWriter" and f.body]
-    ok = len(es) == 1 and any(n.get("k") == "mcall" and n["m"] == "stat" for n in sir.walk(es[0].body))
+    ok = len(es) == 1 and len(st) == 1 and (es[0] is st[0] or any(n.get("k") == "mcall" and n["m"] == st[0].name for n in sir.walk(es[0].body)))
     obs.append(ob("C02.sep/expr_stmt", ok, "proc_gen/mod.rs", "expr_stmt() goes through stat(): %s" % ok))
     cs = [f for f in tc.fns if f.name == "custom_stmt_str" and f.body]
     if len(cs) != 1:
